@@ -469,7 +469,7 @@ func parent(id, level, tier string, seed int64, opt Options) int {
 	cmd.Stderr = ef
 	cmd.Env = os.Environ()
 	if os.Getenv("GORACE") == "" {
-		cmd.Env = append(cmd.Env, "GORACE=halt_on_error=0 log_path="+filepath.Join(outDir, "race-"+tier))
+		cmd.Env = append(cmd.Env, "GORACE=halt_on_error=0 exitcode=0 log_path="+filepath.Join(outDir, "race-"+tier))
 	}
 	if os.Getenv("GOTRACEBACK") == "" {
 		cmd.Env = append(cmd.Env, "GOTRACEBACK=all")
